@@ -182,6 +182,7 @@ int main(int argc, char** argv) {
 		alarm(300); arm_run_timer(8);          // CPU-time watchdog (immune to machine load) + a generous wall-clock backstop
 		EvalResult er = evaluate_case(c);
 		alarm(0); arm_run_timer(0);
+		if (g_stats.probe.count("calls_abandoned_by_watchdog") && g_stats.probe["calls_abandoned_by_watchdog"] >= 12 && prop != "C04" && prop != "C18") { printf("ABORTS-LIMIT run=%ld: too many calls abandoned by the watchdog, this worker stops early\n", run); break; }
 		if (digests) printf("DIGEST run=%ld neutral=%016llx full=%016llx\n", run, static_cast<unsigned long long>(er.digest_neutral), static_cast<unsigned long long>(er.digest_full));
 		if (er.nontrivial) { ++nontrivial_runs; distinct_runs.insert(er.digest_full); }
 		distinct_states.insert(er.digest_neutral ^ 0x5555);
